@@ -46,6 +46,10 @@ type Table struct {
 	Lookups   []*ssa.Function
 	Regs      []*Registration
 	OtherRefs []ssa.Instruction // references that are neither the registrar's update nor the lookup's read
+	// a table built on first use: `once.Do(func() { table = map…{…} })` inside an accessor that returns the table
+	Once     *ssa.Global   // the package-level sync.Once
+	OnceBody *ssa.Function // the function literal that builds the map (the only writer of the variable)
+	Accessor *ssa.Function // runs once.Do(OnceBody) and returns the variable's value; every other use goes through it
 }
 
 type ChecksumSvc struct {
@@ -244,6 +248,67 @@ func (u *Universe) discoverTables() error {
 			u.TableByVar[g] = t
 		}
 	}
+	// tables built on first use under a sync.Once
+	bodies := onceBodies(p)
+	for _, t := range u.Tables {
+		if t.MapField >= 0 {
+			continue
+		}
+		var stores []*ssa.Store
+		for fn := range p.AllFuncs {
+			if !p.InModule(fn) || fn.Blocks == nil || p.IsTestFile(fn.Pos()) {
+				continue
+			}
+			for _, b := range fn.Blocks {
+				for _, in := range b.Instrs {
+					if st, ok := in.(*ssa.Store); ok && st.Addr == ssa.Value(t.Global) {
+						stores = append(stores, st)
+					}
+				}
+			}
+		}
+		if len(stores) != 1 {
+			continue
+		}
+		body := stores[0].Parent()
+		once := bodies[body]
+		if _, isMake := stores[0].Val.(*ssa.MakeMap); !isMake || once == nil || body.Parent() == nil {
+			continue
+		}
+		acc := body.Parent()
+		// the accessor: once.Do(body) first, then the variable's value returned (and used for nothing else)
+		var do ssa.Instruction
+		okAcc := true
+		var loads []*ssa.UnOp
+		for _, b := range acc.Blocks {
+			for _, in := range b.Instrs {
+				if c, ok := in.(ssa.CallInstruction); ok && isOnceDo(c, once, body) {
+					do = in
+				}
+				if ld, ok := in.(*ssa.UnOp); ok && ld.X == ssa.Value(t.Global) {
+					loads = append(loads, ld)
+				}
+			}
+		}
+		if do == nil || len(loads) == 0 {
+			continue
+		}
+		for _, ld := range loads {
+			if !(do.Block().Dominates(ld.Block()) && (do.Block() != ld.Block() || instrIndex(do) < instrIndex(ld))) {
+				okAcc = false
+			}
+			for _, r := range *ld.Referrers() {
+				switch r.(type) {
+				case *ssa.Return, *ssa.DebugRef:
+				default:
+					okAcc = false
+				}
+			}
+		}
+		if okAcc {
+			t.Once, t.OnceBody, t.Accessor = once, body, acc
+		}
+	}
 	// references
 	for fn := range p.AllFuncs {
 		if !p.InModule(fn) || fn.Blocks == nil || p.IsTestFile(fn.Pos()) {
@@ -261,6 +326,16 @@ func (u *Universe) discoverTables() error {
 						continue
 					}
 					u.classifyTableRef(t, fn, in)
+				}
+				// the value of a lazily built table handed out by its accessor
+				if c, ok := in.(*ssa.Call); ok {
+					if callee := c.Call.StaticCallee(); callee != nil {
+						for _, t := range u.Tables {
+							if t.Accessor == callee {
+								u.classifyMapValue(t, fn, c)
+							}
+						}
+					}
 				}
 			}
 		}
@@ -318,8 +393,14 @@ func (u *Universe) discoverTables() error {
 		})
 	}
 	// registrations written as a composite literal: the package initialiser fills a fresh map and stores it in the table
+	lazyBody := map[*ssa.Function]bool{}
+	for _, t := range u.Tables {
+		if t.OnceBody != nil {
+			lazyBody[t.OnceBody] = true
+		}
+	}
 	for fn := range p.AllFuncs {
-		if !p.InModule(fn) || fn.Blocks == nil || !isInitFunc(fn) {
+		if !p.InModule(fn) || fn.Blocks == nil || !(isInitFunc(fn) || lazyBody[fn]) {
 			continue
 		}
 		for _, b := range fn.Blocks {
@@ -420,8 +501,32 @@ func (u *Universe) classifyTableRef(t *Table, fn *ssa.Function, in ssa.Instructi
 		t.OtherRefs = append(t.OtherRefs, in)
 		return
 	}
+	if t.Accessor != nil {
+		if st, ok := in.(*ssa.Store); ok && fn == t.OnceBody && st.Addr == ssa.Value(t.Global) {
+			return // the once body's assignment
+		}
+		if ld, ok := in.(*ssa.UnOp); ok && fn == t.Accessor && ld.X == ssa.Value(t.Global) {
+			return // the accessor's read (checked when the accessor was recognised)
+		}
+	}
 	// the usual shape: t0 = *global ; then Lookup / MapUpdate on t0
 	if ld, ok := in.(*ssa.UnOp); ok {
+		u.classifyMapValue(t, fn, ld)
+		return
+	}
+	if st, ok := in.(*ssa.Store); ok && isInitFunc(fn) {
+		// package initialiser: global = make(map…)
+		if _, ok := st.Val.(*ssa.MakeMap); ok {
+			return
+		}
+	}
+	t.OtherRefs = append(t.OtherRefs, in)
+}
+
+// classifyMapValue: ld is the table's map value in fn (loaded from the variable, or handed out by the accessor of a
+// lazily built table): what is done with it?
+func (u *Universe) classifyMapValue(t *Table, fn *ssa.Function, ld ssa.Value) {
+	{
 		allOK := true
 		for _, r := range *ld.Referrers() {
 			switch r := r.(type) {
@@ -452,15 +557,94 @@ func (u *Universe) classifyTableRef(t *Table, fn *ssa.Function, in ssa.Instructi
 			t.OtherRefs = append(t.OtherRefs, r)
 		}
 		_ = allOK
-		return
 	}
-	if st, ok := in.(*ssa.Store); ok && isInitFunc(fn) {
-		// package initialiser: global = make(map…)
-		if _, ok := st.Val.(*ssa.MakeMap); ok {
-			return
+}
+
+// onceBodies: function literals handed to Do of a package-level sync.Once and used for nothing else, with that Once.
+func onceBodies(p *Program) map[*ssa.Function]*ssa.Global {
+	out := map[*ssa.Function]*ssa.Global{}
+	bad := map[*ssa.Function]bool{}
+	for fn := range p.AllFuncs {
+		if !p.InModule(fn) || fn.Blocks == nil || p.IsTestFile(fn.Pos()) {
+			continue
+		}
+		for _, b := range fn.Blocks {
+			for _, in := range b.Instrs {
+				c, ok := in.(ssa.CallInstruction)
+				if !ok {
+					continue
+				}
+				callee := c.Common().StaticCallee()
+				if callee == nil || fullName(callee) != "(*sync.Once).Do" || len(c.Common().Args) != 2 {
+					continue
+				}
+				g, isG := c.Common().Args[0].(*ssa.Global)
+				var body *ssa.Function
+				switch f := c.Common().Args[1].(type) {
+				case *ssa.Function:
+					body = f
+				case *ssa.MakeClosure:
+					if len(f.Bindings) == 0 {
+						body, _ = f.Fn.(*ssa.Function)
+					}
+				}
+				if body == nil {
+					continue
+				}
+				if !isG || (out[body] != nil && out[body] != g) {
+					bad[body] = true
+					continue
+				}
+				out[body] = g
+			}
 		}
 	}
-	t.OtherRefs = append(t.OtherRefs, in)
+	// the literal is used for nothing but these Do calls
+	for body := range out {
+		if body.Parent() == nil {
+			bad[body] = true
+			continue
+		}
+		for _, b := range body.Parent().Blocks {
+			for _, in := range b.Instrs {
+				for _, op := range in.Operands(nil) {
+					if *op != ssa.Value(body) {
+						continue
+					}
+					if c, ok := in.(ssa.CallInstruction); !ok || !isOnceDo(c, out[body], body) {
+						bad[body] = true
+					}
+				}
+			}
+		}
+	}
+	for b := range bad {
+		delete(out, b)
+	}
+	return out
+}
+
+func isOnceDo(c ssa.CallInstruction, once *ssa.Global, body *ssa.Function) bool {
+	callee := c.Common().StaticCallee()
+	if callee == nil || fullName(callee) != "(*sync.Once).Do" || len(c.Common().Args) != 2 || c.Common().Args[0] != ssa.Value(once) {
+		return false
+	}
+	switch f := c.Common().Args[1].(type) {
+	case *ssa.Function:
+		return f == body
+	case *ssa.MakeClosure:
+		return f.Fn == ssa.Value(body)
+	}
+	return false
+}
+
+func instrIndex(in ssa.Instruction) int {
+	for i, x := range in.Block().Instrs {
+		if x == in {
+			return i
+		}
+	}
+	return -1
 }
 
 // paramMapUse: call passes the map value v to a static module callee; what does the callee do with that parameter?
